@@ -40,6 +40,8 @@ def find_terminal_measurements(circuit: cirq.AbstractCircuit) -> list[tuple[int,
     """
 
     open_qubits: set[cirq.Qid] = set(circuit.all_qubits())
+    # Keys controlled on, or measured again, by later moments: moving such a measurement to
+    # the end of the circuit would change what the control sees or the order of the records.
     seen_control_keys: set[cirq.MeasurementKey] = set()
     terminal_measurements: set[tuple[int, cirq.Operation]] = set()
     for i in range(len(circuit) - 1, -1, -1):
@@ -55,6 +57,7 @@ def find_terminal_measurements(circuit: cirq.AbstractCircuit) -> list[tuple[int,
                 terminal_measurements.add((i, op))
         open_qubits -= moment.qubits
         seen_control_keys |= protocols.control_keys(moment)
+        seen_control_keys |= protocols.measurement_key_objs(moment)
         if not open_qubits:
             break
     return list(terminal_measurements)
